@@ -176,6 +176,8 @@ func readOnce(via string, src []byte) (int, *sl.Err) {
 	return n, err
 }
 
+func leadStr(b []byte) string { return sigName(fmt.Sprintf("%q", b)) }
+
 func quoteBytes(b []byte) string {
 	if 60 < len(b) {
 		return fmt.Sprintf("%q... (%d bytes)", b[:60], len(b))
@@ -197,7 +199,7 @@ func execRd(x *fw.Ctx, c *Case) {
 	if 2 < len(lead) {
 		lead = lead[:2]
 	}
-	markContext(fmt.Sprintf("read via=%s lead=%q", via, lead))
+	markContext(fmt.Sprintf("read via=%s lead=%s", via, leadStr(lead)))
 	a0 := allocBytes()
 	n, err := readOnce(via, src)
 	used := allocBytes() - a0
@@ -233,16 +235,22 @@ func execRd(x *fw.Ctx, c *Case) {
 		if 2 < len(ml) {
 			ml = ml[:2]
 		}
-		x.Fail(fmt.Sprintf("fault=%s read lead=%q", oc.fault, ml), "reading %s (via %s) => internal fault reported as %s: %s (shrunk input: %s)",
+		x.Fail(sigName(fmt.Sprintf("fault=%s read lead=%s", oc.fault, leadStr(ml))), "reading %s (via %s) => internal fault reported as %s: %s (shrunk input: %s)",
 			quoteBytes(src), via, oc.err.Class, oc.err.Msg, quoteBytes(min))
+	case "raw-panic":
+		// slip.Read panics with a bare Go string for a few malformed tokens
+		// ("invalid number base 333"); every Lisp-level path (read-from-string,
+		// load, the REPL) turns that into a plain error condition, so it is
+		// counted, not judged.
+		x.Cover("rd-go-string-panic-at-go-api")
 	case "budget":
-		x.Fail(fmt.Sprintf("over-budget read lead=%q", lead), "reading %s => more than %d evaluation steps", quoteBytes(src), stepBudget)
+		x.Fail(fmt.Sprintf("over-budget read lead=%s", leadStr(lead)), "reading %s => more than %d evaluation steps", quoteBytes(src), stepBudget)
 	case "undocumented":
-		x.Fail(fmt.Sprintf("not-a-condition read lead=%q", lead), "reading %s (via %s) => signalled a non-condition: %v %s", quoteBytes(src), via, oc.err.Chain, oc.err.Msg)
+		x.Fail(fmt.Sprintf("not-a-condition read lead=%s", leadStr(lead)), "reading %s (via %s) => signalled a non-condition: %v %s", quoteBytes(src), via, oc.err.Chain, oc.err.Msg)
 	}
 	if allocBudget+uint64(64*len(src)) < used {
-		x.Fail(fmt.Sprintf("alloc read lead=%q", lead), "reading %s (via %s) => allocated %d MiB", quoteBytes(src), via, used>>20)
+		x.Fail(fmt.Sprintf("alloc read lead=%s", leadStr(lead)), "reading %s (via %s) => allocated %d MiB", quoteBytes(src), via, used>>20)
 	}
 	afterCase(x, c)
-	canary(x, fmt.Sprintf("read lead=%q", lead))
+	canary(x, "read lead="+leadStr(lead))
 }
